@@ -22,7 +22,7 @@
 //
 // op:  run <kind> <steer> <cancel> <workers> <queue> <shards> <bmax> <bwaitUs> <prod> <per> <mode> <closeAt> <closeDlUs> <hdlUs> <seed>
 //      kind  bp|bbp|wq|mb        steer none|wc|wn (mailbox window, close in between / not) |sc|sn (submit select)
-//      cancel 0|1 (CancelAcceptedOnClose + hook)|2 (CancelRunningOnClose)   mode try|wait
+//      cancel bit 1 = CancelAcceptedOnClose + hook, bit 2 = CancelRunningOnClose   mode try|wait
 // out: ev=<tok>,<tok>,...   tokens (t = task id, s = shard):
 //      S<t>:<s> submit begins   A<t> accepted   F<t> full   X<t> closed   E<t> ctx error   Q<t> other error
 //      R<t> handler entered     D<t> handler left       K<t> cancel hook ran
@@ -119,7 +119,7 @@ func genC37(g *Gen) {
 		}
 		cancel := 0
 		if kind == "bbp" && steer == "none" {
-			cancel = g.R.Pick(5, 4, 2)
+			cancel = g.R.Pick(5, 3, 1, 3)
 		}
 		prod := g.R.Range(1, 6)
 		per := g.R.Range(1, 8)
@@ -379,11 +379,11 @@ func (s *c37Scn) build(obs *c37MailboxObserver) error {
 			Policy: func(c37Task) workqueue.BatchOptions {
 				return workqueue.BatchOptions{MaxItems: s.bmax, MaxWait: time.Duration(s.bwait) * time.Microsecond}
 			}}
-		if s.cancel == 1 {
+		if s.cancel&1 != 0 {
 			cfg.CancelAcceptedOnClose = true
 			cfg.CancelAccepted = func(t c37Task, _ error) { s.log.add('K', t.id, 0) }
 		}
-		if s.cancel == 2 {
+		if s.cancel&2 != 0 {
 			cfg.CancelRunningOnClose = true
 		}
 		p, err := workqueue.NewBoundedBatchPool[c37Task](cfg, func(_ context.Context, ts []c37Task) error {
@@ -627,7 +627,14 @@ func (s *c37Scn) runSubmitSelect(hold *c37Hold) {
 		}
 		close(subDone)
 	}()
-	engaged := c37Wait(s.log, hold.engaged, 2*time.Second)
+	engaged := false
+	select { // the hold engages unless the Submit was refused before its final select
+	case <-hold.engaged:
+		engaged = true
+	case <-subDone:
+	case <-time.After(2 * time.Second):
+		s.log.add('T', 0, 0)
+	}
 	if s.steer == "sc" && engaged {
 		closed := make(chan struct{})
 		go func() { s.doClose(context.Background()); close(closed) }()
